@@ -101,6 +101,17 @@ def glue_lits(res):
             lit = "(CGlue %d %s %s %s %s)" % (g["digits"], cbool(g["flag"]), cpairs(g["symmap"]), ctree(g["tree"]),
                                              cobs(observed))
             out.append((lit, {"glue": g}, tree_size(g["tree"]) > 1))
+        elif g["kind"] == "elim":
+            if g.get("conds") is None:
+                continue
+            cpair = lambda p: "(%s, %s)" % (cstr(p[0]), cstr(p[1]))
+            calls = clist(["(%s, (%s, %s))" % (cbool(c["ineq"]), clist([cpair(a) for a in c["assumptions"]]),
+                                               "None" if c.get("result") is None else "(Some %s)" % cstr(c["result"]))
+                           for c in g["calls"]])
+            lit = "(CElim %s %s %s %s)" % (clist([cstr(c) for c in g["conds"]]),
+                                           clist(["None" if x is None else "(Some %s)" % cpair(x) for x in g["extracted"]]),
+                                           calls, cobs(g.get("out"), render=lambda l: clist([cstr(x) for x in l])))
+            out.append((lit, {"glue": g}, len(g["conds"]) > 1))
         elif g["kind"] == "transform" and "raised" not in g:
             given = g["given"] or []
             after = g["map"] or []
@@ -175,6 +186,11 @@ def chain_equalities(rng, vocab):
 def or_group(rng, vocab):
     conds, kind = [], "plain"
     if rng.random() < 0.6:
+        if len(vocab) >= 2 and rng.random() < 0.35:
+            sc = G.shape_case(rng, vocab)          # any shape of equality with its companions: nothing may be eliminated
+            if sc is not None:
+                rng.shuffle(sc[0])
+                return sc[0], "with-shaped-equality"
         conds.append(G.linear_equality(rng, vocab))
         kind = "with-equality"
     for _ in range(rng.randint(1, 3)):
@@ -205,6 +221,11 @@ def make_nested(rng, kind_counts, tier, vocab, d):
     """a compound precondition: conjunction at the top (0-2 equalities + inequalities), a nested disjunction, a universally
     quantified conjunction or disjunction; printed by CompoundPrecondition.print or str()"""
     top = [G.linear_equality(rng, vocab) for _ in range(rng.choice([0, 1, 1, 2]))]
+    if len(vocab) >= 2 and rng.random() < 0.35:
+        sc = G.shape_case(rng, vocab)
+        if sc is not None:
+            top = sc[0]
+            note_shape(kind_counts, sc[1], sc[2], sc[3], "nested/top")
     for _ in range(rng.randint(1, 2)):
         e, _k = G.expression(rng, vocab, allow_div=False)
         top.append((rng.choice(G.CMPS[:4]), e, G.rhs(rng, vocab)))
@@ -219,6 +240,11 @@ def make_nested(rng, kind_counts, tier, vocab, d):
             groups["forall"] = or_group(rng, qvocab)[0]
         else:
             fa = [G.linear_equality(rng, qvocab) for _ in range(rng.choice([0, 1]))]
+            if rng.random() < 0.35:
+                sc = G.shape_case(rng, qvocab)
+                if sc is not None:
+                    fa = sc[0]
+                    note_shape(kind_counts, sc[1], sc[2], sc[3], "nested/forall")
             for _ in range(rng.randint(1, 2)):
                 e, _k = G.expression(rng, qvocab, allow_div=False)
                 fa.append((rng.choice(G.CMPS[:4]), e, G.rhs(rng, qvocab)))
@@ -262,6 +288,61 @@ def nontrivial_tree(t):
     return ops(t) >= 2
 
 
+def note_shape(kind_counts, shape, right, hows, entry):
+    st = kind_counts.setdefault("equality-shapes", {"shape x right side": {}, "companion": {}, "entry": {}})
+    key = "%s/%s" % (shape, right)
+    st["shape x right side"][key] = st["shape x right side"].get(key, 0) + 1
+    for h in hows:
+        st["companion"][h] = st["companion"].get(h, 0) + 1
+    st["entry"][entry] = st["entry"].get(entry, 0) + 1
+
+
+def finish_conj_job(rng, tier, entry, d, conds, kind):
+    """a conjunction job (entries pre / print / str) from generator trees: the guards of make_job (a fluent in every
+    condition, defined somewhere on the solution set) and the rational points; None when a guard fails"""
+    fluents = []
+    for c in conds:
+        G.fluents_of(("+", c[1], c[2]), fluents)
+    trees = [x for c in conds for x in (c[1], c[2])]
+    if not fluents or any(not G.fluents_of(("+", c[1], c[2])) for c in conds) or not well_defined(rng, trees, fluents):
+        return None
+    npts = 3 if tier == "quick" else 4
+    points = [small_point(rng, fluents, conds) for _ in range(npts)]
+    if not defined_somewhere(rng, trees, fluents, conds, points):
+        return None
+    job = {"op": "c13.run", "entry": entry, "digits": d, "conds": [G.show(c) for c in conds], "assumptions": []}
+    return {"job": job, "points": [[[k, str(v)] for k, v in p] for p in points], "kind": "%s/%s" % (entry, kind),
+            "nontrivial": True, "fluents": fluents}
+
+
+def shape_grid(rng, kind_counts, tier):
+    """the grid equality shape x right-hand side x companion inequality (G.EQ_SHAPES x G.EQ_RIGHTS x G.EQ_COMPANIONS): every
+    (shape, right side) cell with 2 distinct companions in the quick tier, with all of them in the thorough tier; vocabulary,
+    coefficients, entry point (pre / print / str) and digits drawn at random"""
+    out = []
+    for shape in G.EQ_SHAPES:
+        for right in G.EQ_RIGHTS:
+            hows = list(G.EQ_COMPANIONS) if tier != "quick" else rng.sample(G.EQ_COMPANIONS, 2)
+            for how in hows:
+                for _ in range(6):
+                    vocab = rng.sample(rng.choice(G.VOCABS), rng.choice([3, 3, 4]))
+                    sc = G.shape_case(rng, vocab, shape, right, how)
+                    if sc is None:
+                        continue
+                    conds, _s, _r, hs = sc
+                    entry = rng.choice(["pre", "print", "print", "str"])
+                    d = G_DEFAULT_DIGITS if entry == "str" else rng.choice([0, 1, 2, 2, 3, 4, 5, 6])
+                    if rng.random() < 0.5:
+                        rng.shuffle(conds)
+                    j = finish_conj_job(rng, tier, entry, d, conds, "equality-shape-grid")
+                    if j:
+                        note_shape(kind_counts, shape, right, hs, entry)
+                        kind_counts[(entry, "equality-shape-grid")] = kind_counts.get((entry, "equality-shape-grid"), 0) + 1
+                        out.append(j)
+                        break
+    return out
+
+
 def make_job(rng, kind_counts, tier):
     vocab_all = rng.choice(G.VOCABS)
     vocab = rng.sample(vocab_all, rng.randint(1, 4))
@@ -298,7 +379,18 @@ def make_job(rng, kind_counts, tier):
             else:
                 les = [G.linear_equality(rng, vocab) for _ in range(rng.randint(1, 2))]
             for le in les:
-                assumptions.append(("=", le[1][1], ("-", le[2], le[1][2])))
+                r = rng.random()
+                a_, b_, r_ = le[1][1], le[1][2], le[2]
+                if r < 0.6:
+                    assumptions.append(("=", a_, ("-", r_, b_)))                    # A = R - B
+                elif r < 0.7:
+                    assumptions.append(("=", a_, ("*", G.num("-1"), b_)))           # A = -1 * B   (what the library builds for R = 0)
+                elif r < 0.8:
+                    assumptions.append(("=", a_, ("+", r_, b_)))                    # A = R + B   (from a difference)
+                elif r < 0.9:
+                    assumptions.append(("=", a_, b_))                               # A = B
+                else:
+                    assumptions.append(("=", ("-", r_, b_), a_))                    # R - B = A   (the function on the right)
             kind += "+assumptions"
     elif entry == "eq":
         e, kind = G.expression(rng, vocab, allow_div=rng.random() < 0.15)
@@ -321,9 +413,23 @@ def make_job(rng, kind_counts, tier):
         if n_eq == 2 and len(vocab) >= 3 and rng.random() < 0.4:
             conds = chain_equalities(rng, vocab)
             kind += "+chain"
+        elif n_eq >= 1 and len(vocab) >= 2 and rng.random() < 0.4:
+            # equalities of every shape around the elimination decision (sum / difference / reversed / plain / scaled / a number
+            # first; zero, small, large or fluent right side) with inequalities over the same operands
+            conds = []
+            for _ in range(n_eq):
+                sc = G.shape_case(rng, vocab)
+                if sc is None:
+                    continue
+                conds += sc[0]
+                note_shape(kind_counts, sc[1], sc[2], sc[3], entry)
+            kind += "+shaped"
         else:
             conds = [G.linear_equality(rng, vocab) for _ in range(n_eq)]
-        for _ in range(rng.randint(1, 3)):
+        for _ in range(rng.randint(0 if ("+shaped" in kind and conds) else 1, 3)):
+            if rng.random() < 0.2:
+                conds.append(G.domain_style(rng, vocab))      # the style of the shipped domains' numeric preconditions
+                continue
             e, _k = G.expression(rng, vocab, allow_div=rng.random() < 0.15)
             conds.append((rng.choice(G.CMPS[:4]), e, G.rhs(rng, vocab)))
         if rng.random() < 0.1:
@@ -490,6 +596,7 @@ def build_inputs(rng, tier):
             pre_done.append(({"job": job, "points": text_points(rng, tier, nd["conds"], nd["entry"] == "or"),
                               "kind": "fixture-node:%s:%s" % (nd["file"], nd["action"]), "nontrivial": True, "fluents": None}, nd))
     kinds["fixture-nodes"] = nodes_seen
+    inputs += shape_grid(rng, kinds, tier)
     n = len(inputs) + (340 if tier == "quick" else 3000)
     tries = 0
     while len(inputs) < n and tries < 20 * n:
@@ -578,7 +685,9 @@ def run(args):
     inputs = inputs + [i for i, _ in pre_done]
     results = list(results) + [r for _, r in pre_done]
     cases, seen_glue = [], set()
-    n_glue = n_trans = 0
+    n_glue = n_trans = n_elim = 0
+    elim_stats = {"equalities used for elimination": 0, "equalities not used": 0,
+                  "conjunctions with >= 1 assumption and >= 1 inequality": 0}
     for inp, res in zip(inputs, results):
         slim = {k: v for k, v in res.items() if k != "glue"}
         if inp["job"]["entry"] == "nested" and "groups" in res:
@@ -602,13 +711,21 @@ def run(args):
                       "nontrivial": inp["nontrivial"], "witness_of": inp.get("witness_of"),
                       "klass": classify(inp, res), "what": "e2e"})
     glue_budget = 1200 if args.tier == "quick" else 10000
+    elim_budget = 700 if args.tier == "quick" else 6000        # elimination cases have a budget of their own
     for inp, res in zip(inputs, results):
         for lit, desc, nontrivial in glue_lits(res):
-            if lit in seen_glue or len(seen_glue) >= glue_budget:
+            is_elim = lit.startswith("(CElim")
+            if lit in seen_glue or (n_elim >= elim_budget if is_elim else n_glue + n_trans >= glue_budget):
                 continue
             seen_glue.add(lit)
             if lit.startswith("(CGlue"):
                 n_glue += 1
+            elif lit.startswith("(CElim"):
+                n_elim += 1
+                for x in desc["glue"]["extracted"]:
+                    elim_stats["equalities used for elimination" if x is not None else "equalities not used"] += 1
+                elim_stats["conjunctions with >= 1 assumption and >= 1 inequality"] += int(
+                    any(x is not None for x in desc["glue"]["extracted"]) and any(c["ineq"] for c in desc["glue"]["calls"]))
             else:
                 n_trans += 1
             cases.append({"lit": lit, "input": desc, "nontrivial": nontrivial, "witness_of": None, "what": "glue"})
@@ -639,7 +756,8 @@ def run(args):
     e2e = [(c, v) for c, v in zip(cases, verdicts) if c["what"] == "e2e"]
     cov["programs"] = len(e2e)
     cov["disagreements_checked"] = sum(1 for c, v in e2e if v != ".")
-    cov["glue_cases"] = {"convert": n_glue, "transform": n_trans}
+    cov["glue_cases"] = {"convert": n_glue, "transform": n_trans, "elimination": n_elim}
+    cov["elimination_cases"] = elim_stats
     # which part of the proved checker validated the outputs of each end-to-end case (Corr.C13.ev_path)
     names = {"p": "coefficientwise (polynomial normal forms)", "e": "structural rounding of the output itself (eround, no hint)",
              "h": "structural rounding of a hint (eround, hint verified exactly equivalent)",
@@ -659,8 +777,26 @@ def run(args):
         if c["what"] == "e2e":
             dd = cov["validated_by_digits"].setdefault(str(c["input"].get("group_job", c["input"]["job"])["digits"]), {})
             dd[pth] = dd.get(pth, 0) + 1
+    # entry point x digits: which part of the checker validated how many outputs (str(precondition) exists only at the library's
+    # default number of decimals - it has no digits parameter -, so its row has one column by construction)
+    table = {}
+    for (c, v), pth in zip(zip(cases, verdicts), paths):
+        if c["what"] != "e2e":
+            continue
+        gj = c["input"].get("group_job", c["input"]["job"])
+        ent = c["input"]["job"]["entry"] + ("/" + c["input"]["group"] if "group" in c["input"] else "")
+        if c["input"]["job"].get("via") == "str":
+            ent += "(str)"          # str(compound precondition): default decimals only
+        cell = table.setdefault(ent, {}).setdefault(str(gj["digits"]), {})
+        cell[pth] = cell.get(pth, 0) + 1
+    cov["validated_by_entry_digits"] = {e: {d: dict(sorted(c.items())) for d, c in sorted(row.items())} for e, row in sorted(table.items())}
+    fixed_digits = lambda e: e == "str" or e.endswith("(str)")
+    cov["entry_digits_empty_cells"] = sorted(
+        "%s@%d" % (e, d) for e, row in table.items() for d in range(0, 7)
+        if not any(k in ("p", "e", "h", "i") for k in row.get(str(d), {})) and not (fixed_digits(e) and d != G_DEFAULT_DIGITS))
     cov["fixtures"] = kinds.pop("fixture-files/parsed-domains/sets", None)
     cov["fixture_nodes"] = kinds.pop("fixture-nodes", None)
+    cov["equality_shapes"] = kinds.pop("equality-shapes", None)
     cov["input_distribution"] = {"%s/%s" % k: v for k, v in sorted(kinds.items())}
     cov["input_distribution"]["fixture"] = sum(1 for i in inputs if i["kind"].startswith("fixture:"))
     cov["input_distribution"]["fixture-node"] = sum(1 for i in inputs if i["kind"].startswith("fixture-node:"))
